@@ -16,6 +16,10 @@ PFX_NOTE = ("Trusted: Lean kernel; the hand-written model of plugins/prefix/plug
             "histories (through the wire, so that length-0 and length>128 hints arrive as the library delivers them); the clock is a parameter; bitset and DHCPv6 codec not verified.")
 
 META = {
+    "C10": dict(
+        text="Lean refinement proof: for every history of set-ups, refreshes (good or bad) and queries of both protocols, every answer of the table-based model equals what the file currently in force lists (computed directly from the lines, last occurrence wins); acceptance iff all lines well-formed; a bad update changes nothing; loading one protocol never changes the other. The monitor judges the real plugin on generated lease files in every MAC/IP spelling, with rewrites under autorefresh.",
+        design_ref="DESIGN.md §4 C10", technique="Lean 4 refinement proof (table vs. file-as-written, all histories) + conformance against the real file plugin incl. fsnotify-driven refresh",
+        note="Trusted: Lean kernel; the hand-written model of plugins/file/plugin.go; line/field splitting and net.ParseMAC/ParseIP are inputs (oracle answers recorded per line by the harness); fsnotify delivery is not modelled (bounded wait)."),
     "C08": dict(
         text="Lean invariant proof by induction over every message history: the history monitor (in pool, aligned, size, lifetimes, disjoint across clients, one IA_PD per IA_PD) never fails on the model, for every well-formed pool, every hint shape and every allocator policy; the same monitor judges the implementation's replies while the model is stepped alongside.",
         design_ref="DESIGN.md §4 C08", technique="Lean 4 invariant proof over all message histories + conformance against the real prefix plugin", note=PFX_NOTE),
@@ -59,4 +63,4 @@ META = {
 }
 NOT_YET = {}
 # properties whose check is complete and registered
-ENABLED = {"C20", "C02", "C03", "C04", "C05", "C06", "C07", "C11", "C12", "C13", "C15", "C08", "C09"}
+ENABLED = {"C20", "C02", "C03", "C04", "C05", "C06", "C07", "C11", "C12", "C13", "C15", "C08", "C09", "C10"}
